@@ -419,7 +419,7 @@ Proof.
   destruct m as [|m]; [cbn in Hm; lia|].
   unfold need_ast, list_sum in Hn. cbn [map fold_right] in Hn.
   destruct (p_item_cons it) as [tk [r' E]].
-  cbn [parse_items]. rewrite E. cbn [app]. rewrite <- E.
+  cbn [parse_items]. rewrite E. cbn [app]. change (tk :: r' ++ print_ast r) with ((tk :: r') ++ print_ast r). rewrite <- E.
   rewrite parse_item_print by lia. cbn [obind].
   rewrite IH; [reflexivity|cbn [length] in Hm; lia|unfold need_ast, list_sum; lia].
 Qed.
